@@ -457,6 +457,21 @@ def maybe_replace_with_fstring(
     # the linter should have given an error in this case
     if len(substitutions) != len(fs.specifiers) != len(fs.raw_pieces) - 1:
         return None
+    # %d truncates a float and formats a bool as 0 or 1, while {x} formats them like
+    # str(): only rewrite %d for arguments that are known to be ints
+    if any(cs.conversion_type == "d" for cs in fs.specifiers):
+        if isinstance(args_node, ast.Tuple):
+            sequence = replace_known_sequence_value(args) if args is not None else None
+            if not isinstance(sequence, SequenceValue):
+                return None
+            arg_values = sequence.get_member_sequence()
+        else:
+            arg_values = [args]
+        if arg_values is None or len(arg_values) != len(fs.specifiers):
+            return None
+        for cs, arg_value in zip(fs.specifiers, arg_values):
+            if cs.conversion_type == "d" and not _is_known_int(arg_value):
+                return None
     parts = []
     for raw_piece, substitution in zip(fs.raw_pieces, substitutions):
         if raw_piece:
@@ -467,6 +482,14 @@ def maybe_replace_with_fstring(
     if fs.raw_pieces[-1]:
         parts.append(ast.Constant(value=fs.raw_pieces[-1]))
     return ast.JoinedStr(values=parts)
+
+
+def _is_known_int(value: Optional[Value]) -> bool:
+    if isinstance(value, AnnotatedValue):
+        value = value.value
+    if isinstance(value, KnownValue):
+        return type(value.val) is int
+    return isinstance(value, TypedValue) and value.typ is int
 
 
 def _is_simple_enough(node: ast.AST) -> bool:
